@@ -72,5 +72,33 @@ def main():
         good_here = (got == set()) if not expect else expect <= got
         print('%-45s -> %s %s' % (name, sorted(got) or 'accepted', 'OK' if good_here else 'UNEXPECTED'))
         ok = ok and good_here
+    # (b') the suffix-filter worker
+    scase = dict(case, kind='ftab', api='SUFFIX.filter_tables', filt='SUFFIX', sc=0, am=0, lout=None)
+    scase['L'] = {'cols': ['id', 's'], 'rows': [[1, 'x y z w'], [2, 'x y'], [4, '']], 'index': None, 'strcols': ['s']}
+    scase['R'] = {'cols': ['id', 's'], 'rows': [[11, 'x y z'], [12, ''], [13, 'z w v u']], 'index': None, 'strcols': ['s']}
+    obs, res, events, tabs = record.execute(scase)
+    key, w = workertrace.build_suffix(scase, events, tabs, 1)
+    sv = [('unmodified suffix-worker trace', w, set())]
+    x = copy.deepcopy(w); x['tid'] = 2
+    x['events'] = x['events'][1:]
+    sv.append(('first filter_suffix event removed', x, {'token-counts', 'unconsumed-events', 'missing-event'}))
+    x = copy.deepcopy(w); x['tid'] = 3
+    x['events'][0]['dropped'] = 1 - x['events'][0]['dropped']
+    sv.append(('decision of the first pair inverted', x, {'suffix-decision'}))
+    x = copy.deepcopy(w); x['tid'] = 4
+    x['events'][0]['ot'] += 1
+    sv.append(('logged required overlap increased', x, {'required-overlap'}))
+    x = copy.deepcopy(w); x['tid'] = 5
+    x['rows'] = x['rows'][:-1]
+    sv.append(('last emitted row dropped from worker_end', x, {'emitted-rows'}))
+    cfg_path = os.path.join(config.workdir('traces'), 'selftest-s.cfg')
+    with open(cfg_path, 'w') as fh:
+        fh.write(workertrace.CFG_SUF % (key[1], 'TRUE' if key[2] else 'FALSE'))
+    verdicts, _ = runner.validate([y[1] for y in sv], 'TraceWorkersSuffix', 'selftest-s', cfg_path=cfg_path)
+    for name, rec, expect in sv:
+        got = set(verdicts[rec['tid']]['fails'])
+        good_here = (got == set()) if not expect else bool(expect & got)
+        print('%-45s -> %s %s' % (name, sorted(got) or 'accepted', 'OK' if good_here else 'UNEXPECTED'))
+        ok = ok and good_here
     print('selftest %s' % ('passed' if ok else 'FAILED'))
     return 0 if ok else 1
